@@ -4,7 +4,7 @@ From Coq Require Import ZArith QArith List Bool String Ascii.
 From Coq Require Import Floats.PrimFloat.
 From PAFCommon Require Import PyFloat PyNum.
 From Coq Require Import Permutation.
-From PAFC07 Require Import Gen Model Proofs1 Proofs2 Proofs3 Proofs4 Proofs5 Proofs6 Proofs7 Proofs8 Refute.
+From PAFC07 Require Import Gen Model Proofs1 Proofs2 Proofs3 Proofs4 Proofs5 Proofs6 Proofs7 Proofs8 Proofs9 Refute.
 Import ListNotations.
 Open Scope string_scope.
 Open Scope list_scope.
@@ -142,3 +142,41 @@ Example history_example :
   map (tokens ps0) (run_history emcee (mkpaths (Some "old")) [(NFloat 1, Some "d1"); (NFloat 1, None); (NFloat 2, Some "d1")]) =
   [["Emcee"; "nwalkers"; "30"; "1.0"; "d1"]; ["Emcee"; "nwalkers"; "30"; "1.0"]; ["Emcee"; "nwalkers"; "30"; "2.0"; "d1"]].
 Proof. vm_compute. reflexivity. Qed.
+
+(* ---------------- derived models ---------------- *)
+(* a positional collection nested in a keyword collection; a grid-search cell over prior 1 *)
+Definition positional : node :=
+  NColl 7 0 [("gaussians", NColl 6 2 [("0", A2 3 (u01 1) (NFloat 2)); ("1", A2 4 (g12 2) (u01 1))]); ("extra", A2 5 (u01 8) (NFloat 1))].
+Definition cell : list (Z * node) := [(1%Z, NPrior 1 FUniform 0 0.5 0 0)].
+
+(* the facts read from the source, as they are now (C07_derived_*_partial depends on the first; the second is the
+   recorded finding derived-tuple-member-order: when it is repaired this example and C07_derived_same_identifier_refuted
+   change, and the guard tuples_ok can be dropped from the _partial theorems through derive_is_subst with ord = true) *)
+Example derive_facts_now : derive_copies_item_number = true /\ tuple_derive_keeps_order = false.
+Proof. split; reflexivity. Qed.
+
+Example derived_cell_is_hand_composed :
+  derive cell positional =
+  NColl 7 0 [("gaussians", NColl 6 2 [("0", A2 3 (NPrior 1 FUniform 0 0.5 0 0) (NFloat 2)); ("1", A2 4 (g12 2) (NPrior 1 FUniform 0 0.5 0 0))]);
+             ("extra", A2 5 (u01 8) (NFloat 1))] /\
+  tokens ps0 (reify (derive cell positional)) <> tokens ps0 (reify positional).
+Proof. split; [vm_compute; reflexivity | vm_compute; discriminate]. Qed.
+
+(* the guards of the C07_derived_* theorems are met *)
+Example derived_guards :
+  priors_only cell = true /\ forallb priors_only [cell; []] = true /\ tuples_ok positional = true /\
+  reload_ok emcee = true /\ reload_ok (subst cell positional) = true /\
+  tuples_ok (NModel 3 "" "c07_classes.P2" ["c"; "pos"] [("c", NFloat 1); ("pos", NTuple 2 [("pos_0", u01 1); ("pos_1", NFloat 2)])]) = true.
+Proof. repeat split; vm_compute; reflexivity. Qed.
+
+(* with both facts true a tuple with a fixed member first is derived in its own order *)
+Example derived_tuple_in_order : derive_gen true true [] mixed_tuple = mixed_tuple /\ derive_gen true false [] mixed_tuple <> mixed_tuple.
+Proof. split; [vm_compute; reflexivity|]. vm_compute. intro H. inversion H. Qed.
+
+(* what the theorems would lose without `collection.item_number = self.item_number`: the derived copy of a positional
+   collection is described differently from the original (and from what its own files are read back to) *)
+Example derive_without_item_number_differs :
+  tokens ps0 (reify (derive_gen false true [] positional)) <> tokens ps0 (reify positional) /\
+  (exists m', reload (derive_gen false true [] positional) = Some m' /\
+              tokens ps0 (reify m') <> tokens ps0 (reify (derive_gen false true [] positional))).
+Proof. split; [vm_compute; discriminate|]. eexists. split; [vm_compute; reflexivity | vm_compute; discriminate]. Qed.
